@@ -16,7 +16,7 @@ PROP = dict(
     engines=[dict(
         name="reads", classify=classify,
         quick=dict(cases=120, shards=6, profiles=["debug", "release"]),
-        thorough=dict(cases=6000, shards=16, profiles=["debug", "release"]),
+        thorough=dict(cases=2400, shards=16, profiles=["debug", "release"]),
     )],
     rule="one case = one real vector (BytesVec<u64>, BytesVec<5-byte non-native element>, ZeroCopyVec<u64>, PcoVec/LZ4Vec/"
          "ZstdVec<u64>, EagerVec<BytesVec>, EagerVec<PcoVec>; 35% with rollback support) driven through 1-3 phases of a short "
